@@ -97,21 +97,23 @@ Print Assumptions C15_api_names.
 
 (* they are among the identifiers the model declares for a message (Json only in standard
    mode) *)
-Theorem C15_api_names_declared : forall n fields,
-  (forall opt, In (IFunc, Str "Encode" ++ n) (message_idents LC opt n fields) /\
-               In (IFunc, Str "Decode" ++ n) (message_idents LC opt n fields) /\
-               In (IMacro, size_const LC n) (message_idents LC opt n fields) /\
-               In (IStruct, n) (message_idents LC opt n fields)) /\
-  In (IFunc, Str "Json" ++ n) (message_idents LC false n fields) /\
-  (forall opt, In (IMethod n, Str "Encode") (message_idents LGo opt n fields) /\
-               In (IMethod n, Str "Decode") (message_idents LGo opt n fields) /\
-               In (IMethod n, Str "Size") (message_idents LGo opt n fields) /\
-               In (IConst, size_const LGo n) (message_idents LGo opt n fields) /\
-               In (IType, n) (message_idents LGo opt n fields)) /\
-  (forall opt, In (IMethod n, Str "encode") (message_idents LPy opt n fields) /\
-               In (IMethod n, Str "decode") (message_idents LPy opt n fields) /\
-               In (IAttr n, Str "BYTES_LENGTH") (message_idents LPy opt n fields) /\
-               In (IClass, n) (message_idents LPy opt n fields)).
+Theorem C15_api_names_declared : forall p n fields,
+  (forall opt, In (IFunc, Str "Encode" ++ n) (message_idents LC opt (model_namer LC p) n fields) /\
+               In (IFunc, Str "Decode" ++ n) (message_idents LC opt (model_namer LC p) n fields) /\
+               In (IMacro, size_const LC n) (message_idents LC opt (model_namer LC p) n fields) /\
+               In (IStruct, n) (message_idents LC opt (model_namer LC p) n fields)) /\
+  In (IFunc, Str "Json" ++ n) (message_idents LC false (model_namer LC p) n fields) /\
+  (forall opt, In (IMethod n, Str "Encode") (message_idents LGo opt (model_namer LGo p) n fields) /\
+               In (IMethod n, Str "Decode") (message_idents LGo opt (model_namer LGo p) n fields) /\
+               In (IMethod n, Str "Size") (message_idents LGo opt (model_namer LGo p) n fields) /\
+               In (IConst, size_const LGo n) (message_idents LGo opt (model_namer LGo p) n fields) /\
+               In (IType, n) (message_idents LGo opt (model_namer LGo p) n fields)) /\
+  (forall opt, In (IMethod n, Str "encode") (message_idents LPy opt (model_namer LPy p) n fields) /\
+               In (IMethod n, Str "decode") (message_idents LPy opt (model_namer LPy p) n fields) /\
+               In (IMethod n, Str "to_json") (message_idents LPy opt (model_namer LPy p) n fields) /\
+               In (IMethod n, Str "to_dict") (message_idents LPy opt (model_namer LPy p) n fields) /\
+               In (IAttr n, Str "BYTES_LENGTH") (message_idents LPy opt (model_namer LPy p) n fields) /\
+               In (IClass, n) (message_idents LPy opt (model_namer LPy p) n fields)).
 Proof. exact api_names_declared. Qed.
 Print Assumptions C15_api_names_declared.
 
